@@ -748,6 +748,7 @@ def zero_constructor_clause(ctx, RID):
                 b_ = f.mir[fn_["path"]]
                 ctx.fn(b_.path)
                 I = Interp(f)
+                I.no_storage_model = True      # the constructors are evaluated from their bodies here, one delegating to the other included
                 me = Struct("SquareMatrix", {"data": Arr(("?",), lambda i: Num(Expr.leaf("data", i)), name="data"), "dim": Num(Expr.symbol("dim0"))})
                 first = me if fn_["name"] == "new_zeros" else Num(Expr.leaf("builder"))
                 res = I.run_fn(b_.path, [first, Num(Expr.symbol("dim"))])
